@@ -1106,7 +1106,7 @@ func (req *Request) optimizeStatsGroups(stats []*Filter, renumber bool) []*Filte
 		if renumber {
 			stat.statsPos = idx
 		}
-		if stat.statsType != Counter || stat.column != nil || len(stat.filter) < 2 {
+		if !isGroupableStats(stat) {
 			groupedStats = append(groupedStats, stat)
 
 			continue
@@ -1120,6 +1120,8 @@ func (req *Request) optimizeStatsGroups(stats []*Filter, renumber bool) []*Filte
 			case lastGroup.operator != firstFilter.operator:
 			case lastGroup.stringVal != firstFilter.stringVal:
 			case lastGroup.negate != firstFilter.negate:
+			case lastGroup.customTag != firstFilter.customTag:
+			case lastGroup.isEmpty != firstFilter.isEmpty:
 			case len(firstFilter.filter) != 0:
 			default:
 				lastGroup.filter = append(lastGroup.filter, removeFirstStatsFilter(stat))
@@ -1134,7 +1136,7 @@ func (req *Request) optimizeStatsGroups(stats []*Filter, renumber bool) []*Filte
 		// start a new group if the current first stats filter matches the next first stats filter
 		if len(stats) > idx+1 {
 			next := stats[idx+1]
-			if next.statsType != Counter || next.column != nil || len(next.filter) < 2 || stat.filter[0].groupOperator == Or {
+			if !isGroupableStats(next) {
 				groupedStats = append(groupedStats, stat)
 
 				continue
@@ -1161,6 +1163,20 @@ func (req *Request) optimizeStatsGroups(stats []*Filter, renumber bool) []*Filte
 	req.optimizeStatsGroupsRecurse(lastGroup)
 
 	return groupedStats
+}
+
+// isGroupableStats returns true if the first filter of this stats counter can be moved into a common stats group.
+// This is only possible for plain StatsAnd counters: the first term of a StatsOr or a negated group is not a precondition
+// for the counter and a first term which is a group itself cannot carry the sub stats.
+func isGroupableStats(stat *Filter) bool {
+	if stat.statsType != Counter || stat.column != nil || len(stat.filter) < 2 {
+		return false
+	}
+	if stat.groupOperator != And || stat.negate {
+		return false
+	}
+
+	return len(stat.filter[0].filter) == 0
 }
 
 func (req *Request) optimizeStatsGroupsRecurse(lastGroup *Filter) {
